@@ -114,15 +114,15 @@ func (t TT) DependsOn(i int) bool {
 
 // Table is the result of analysing one function (or region).
 type Table struct {
-	Fn    *ssa.Function
-	Atoms []string // canonical keys, index = atom number
-	atomV []ssa.Value
-	val   map[ssa.Value]TT
-	cond  map[*ssa.BasicBlock]TT
-	back  map[[2]*ssa.BasicBlock]bool
-	n     int
-	Err   string
-	valOf func(ssa.Value) TT
+	Fn      *ssa.Function
+	Atoms   []string // canonical keys, index = atom number
+	atomV   []ssa.Value
+	val     map[ssa.Value]TT
+	cond    map[*ssa.BasicBlock]TT
+	back    map[[2]*ssa.BasicBlock]bool
+	n       int
+	Err     string
+	valOf   func(ssa.Value) TT
 	include func(*ssa.BasicBlock) bool
 	root    *ssa.BasicBlock
 }
